@@ -446,6 +446,36 @@ func (l *Layout) RemoveFile(d int, name string) error {
 	return nil
 }
 
+// RenameFile renames an entry of pool directory d inside the directory (to == "" moves it out of every
+// Spec directory instead). Under a name that is not a Spec name the entry is ignored by the scan.
+func (l *Layout) RenameFile(d int, from, to string) error {
+	dir := l.Pool[d]
+	f := dir.Files[from]
+	if f == nil {
+		return fmt.Errorf("no entry %s in %s", from, dir.Name)
+	}
+	dst := filepath.Join(l.Root, "moved-out-"+dir.Name+"-"+from)
+	if to != "" {
+		if _, isSub := dir.Subdirs[to]; isSub {
+			return fmt.Errorf("%s is a subdirectory", to)
+		}
+		dst = filepath.Join(l.Path(d), to)
+	}
+	if err := os.Rename(filepath.Join(l.Path(d), from), dst); err != nil {
+		return err
+	}
+	delete(dir.Files, from)
+	if to != "" {
+		nf := *f
+		nf.Name = to
+		if !IsSpecName(to) {
+			nf.Kind = NonSpec
+		}
+		dir.Files[to] = &nf
+	}
+	return nil
+}
+
 // RemoveDir removes pool directory d with its content.
 func (l *Layout) RemoveDir(d int) error {
 	if err := os.RemoveAll(l.Path(d)); err != nil {
